@@ -637,6 +637,9 @@ func Run(t *testing.T, cfg harness.Config, idx int, tp *tape.Tape) (res harness.
 				defer sim.TaskDone()
 				t.gid = runtime.VerifGID()
 				t.park = func(stage string) {
+					if os.Getenv("VSIM_DEBUG_POINTS") != "" {
+						fmt.Fprintf(os.Stderr, "PARK task%02d %s vclock=%d rate=%d budget=%d target=%s left=%d locks=%d\n", i, stage, t.vclock, t.rate, t.budget, t.target, t.targetLeft, runtime.VerifLocksHeld())
+					}
 					cur.Store(nil)
 					sim.Yield(fmt.Sprintf("task%02d:%s", i, stage))
 					cur.Store(t)
@@ -782,6 +785,21 @@ func Run(t *testing.T, cfg harness.Config, idx int, tp *tape.Tape) (res harness.
 	for _, s := range specs {
 		names = append(names, fmt.Sprintf("%s layout=%s sketch=%v theme=%d dark=%d pad=%d (%d bytes)", s.Name, s.Layout, s.Sketch, s.Theme, s.Dark, s.Pad, len(s.Script)))
 		res.ExtraHashes = append(res.ExtraHashes, harness.HashStrings([]string{s.Key(), fmt.Sprint(res.SchedHash)}))
+	}
+	if mode != modeStages {
+		// Where a task stops is counted in scheduling points, and how many of them a stage
+		// passes is not the same in two processes: d2 ranges over maps keyed by pointers
+		// (with early exits), and the order of such a map depends on addresses. The
+		// schedule therefore cannot be compared across processes; what the same seed must
+		// reproduce is the inputs and every execution's result.
+		var parts []string
+		for _, sp := range specs {
+			parts = append(parts, sp.Key())
+		}
+		for _, e := range execs {
+			parts = append(parts, e.out.Hash)
+		}
+		res.DetKey = fmt.Sprintf("mode%d %s", mode, strings.Join(parts, " "))
 	}
 	res.Evals = len(execs) + len(specs)
 	res.Nontrivial = len(execs) >= 2
